@@ -24,6 +24,13 @@ def make_cases(chk):
         # every 7th history uses predicates of magnitude 1e3..1e6 next to unit-size ones (function preservation must not
         # depend on the scale of a row; margins are geometric: tau * |a|_1)
         scale = rng.choice([FR(10**3), FR(10**5) * FR(7, 3), FR(10**6)]) if i % 7 == 3 else None
+        if i % 13 == 5:
+            # an Indeterminate node with a fat region (see Hist "wedge"): it must survive with its subtree
+            h = Hist("h%d" % i, rng, n=2, max_ops=3, ops=["elim", "elim", "compose_f_schema", "apply_func", "compose_t_schema"], start="wedge")
+            if not any(c["kind"] == "elim" for c in h.checkpoints):
+                h._op("elim")
+            cases.append(h.case())
+            continue
         if fam == 0:      # elimination-centred histories
             h = Hist("h%d" % i, rng, max_ops=4, ops=["compose_f_schema", "compose_f_schema", "compose_f_tree", "apply_func", "elim", "elim"], scale=scale)
             if not any(c["kind"] == "elim" for c in h.checkpoints):
